@@ -41,8 +41,11 @@ def wire(iid, v):
 # ---------------------------------------------------------------- C13 / C17: per-item outcomes of batched writes and reads
 def run_c13_coap(case, R):
     ids = case["ids"]
-    outs = case["outcomes"]
     mode = case.get("mode", "write")
+    # a read of a characteristic without read permission is answered with status 6 by the accessory; the caller still gets an entry for it
+    outs = [6 if (mode == "read" and o == "ok" and iid in CHARS and iid not in READABLE) else o for iid, o in zip(case["ids"], case["outcomes"])]
+    if outs != case["outcomes"]:
+        R.cls("coap:read-of-write-only")
     bad = [o != "ok" for o in outs]
     R.nt(any(bad[:-1]) and len(ids) >= 2 or (any(bad) and not all(bad)))
     R.cls(mode + ":coap", f"n={len(ids)}")
@@ -168,6 +171,9 @@ def enum_c13_coap(tier):
     for mode in ("write", "read"):
         for ids in ([91], [91, 10], [10, 91], [10, 91, 12], [10, 12, 91], [91, 92], [12, 91, 10, 92]):
             yield {"ids": ids, "outcomes": ["ok"] * len(ids), "mode": mode, "sel": len(ids)}
+    for ids in ([13], [13, 10], [10, 13], [12, 13, 15], [13, 12, 15, 16]):
+        yield {"ids": ids, "outcomes": ["ok"] * len(ids), "mode": "read", "sel": len(ids)}
+        yield {"ids": ids, "outcomes": [3] + ["ok"] * (len(ids) - 1), "mode": "read", "sel": len(ids)}
     for mode, pool in (("write", wr), ("read", rd)):
         for n in (1, 2, 3):
             for vec in itertools.product(OUTCOMES, repeat=n):
@@ -179,7 +185,7 @@ def enum_c13_coap(tier):
 @st.composite
 def c13_coap_cases(draw):
     mode = draw(st.sampled_from(["write", "read"]))
-    pool = sorted(WRITABLE) if mode == "write" else sorted(READABLE)
+    pool = sorted(WRITABLE) if mode == "write" else sorted(READABLE) + sorted(set(CHARS) - READABLE)
     n = draw(st.integers(1, min(6, len(pool))))
     ids = draw(st.lists(st.sampled_from(pool), min_size=n, max_size=n, unique=True))
     if draw(st.integers(0, 7)) == 0:           # an id that is not in the accessory's database, anywhere in the batch
